@@ -282,5 +282,6 @@ pub fn workloads() -> Vec<(&'static str, Vec<Step>)> {
         ("W4_merge_gc", vec![Add(1), Commit, Add(2), DelId(1), Commit, Add(3), Commit, Merge, Gc, Add(4), Commit]),
         ("W5_reload", vec![Add(1), Commit, Reload, Add(2), Commit, Reload, Merge, Reload]),
         ("W6_rollback_restart", vec![Add(1), Commit, Add(2), Rollback, Add(3), Commit, DropWriter, NewWriter, Add(4), DelId(3), Commit]),
+        ("W7_deletes_then_gc", vec![Add(1), Add(2), Add(3), Commit, DelId(1), Commit, DelId(2), Commit, Gc, Add(4), Commit]),
     ]
 }
